@@ -183,8 +183,15 @@ def _worker(args):
         acc._deadline = time.time() + budget_s
     try:
         getattr(mod, fn)(acc, tier, shard, nshards)
-    except Exception:
-        return {"error": traceback.format_exc(), "shard": shard, "fn": fn}
+    except Exception as e:
+        where = escaped_from_code_under_test(e)
+        if where is None or type(e).__module__.startswith("hypothesis"):
+            return {"error": traceback.format_exc(), "shard": shard, "fn": fn}
+        # an exception out of the code under test that the part did not anticipate: an outcome, not a harness error
+        acc.violations.append({"bucket": f"escaped:{type(e).__name__}:{where}",
+                               "message": f"{type(e).__name__} escaped from the code under test ({where}) in part {fn}: {e!s:.200}",
+                               "case": {"not_replayable": True, "traceback": traceback.format_exc()[-3000:]},
+                               "search": fn, "shard": shard, "round": 0, "seed": env.verif_seed(), "tier": tier})
     return acc.dump()
 
 
@@ -238,7 +245,13 @@ def run_property(mod, tier):
             cases = [cases]
         still = []
         for c in cases:
-            ds = mod.replay(c)
+            try:
+                ds = mod.replay(c)
+            except Exception as e:
+                where = escaped_from_code_under_test(e)
+                if where is None:
+                    raise
+                ds = [Discrepancy(f"escaped:{type(e).__name__}:{where}", f"{type(e).__name__} escaped from the code under test ({where}) while replaying {k['id']}: {e!s:.200}", c)]
             merged.evaluations += 1
             if ds:
                 still.append((c, ds))
